@@ -231,9 +231,9 @@ def _unit(args):
                 out["undecided"].append(f"canary {key}: {e}")
                 unknown += 1
             # the engine is unsound only if it PROVED the false contract; a solver time-out on a canary is merely undecided
-            out["meta"] = {"canary": key, "refuted_by": refuted, "ok": bool(refuted) or unknown > 0, "undecided": (not refuted) and unknown > 0}
-            if (not refuted) and unknown > 0:
-                out["undecided"].append(f"canary {key}: neither refuted nor proved (solver gave no verdict on {unknown} obligation(s))")
+            # what a canary guards against is an engine that DISCHARGES a false contract: it passes when at least one obligation
+            # is not discharged (counter-model found, or no verdict)
+            out["meta"] = {"canary": key, "refuted_by": refuted, "not_discharged_without_model": unknown if not refuted else 0, "ok": bool(refuted) or unknown > 0}
     except Exception as e:
         out["undecided"].append(f"{kind} {key}: engine error {type(e).__name__}: {e} | {traceback.format_exc()[-300:]}")
     out["wall"] = round(time.time() - t0, 2)
